@@ -11,10 +11,10 @@ cd /verif
 test -s $OUT/patch.diff || { echo "no patch"; exit 2; }
 # the worktree is reset to exactly the delivered patch (git stash is shared between worktrees: never used here)
 git -C $WT checkout -q -- . && git -C $WT checkout -q --detach $(git -C /repo rev-parse HEAD) && git -C $WT apply $OUT/patch.diff || { echo "patch does not apply"; exit 2; }
-PYT=$(/venv/bin/python /tmp/seedtools/intree.py $WT pytest synphot 2>&1 | tail -1)
-DEMO_BAD=$(/venv/bin/python /tmp/seedtools/intree.py $WT run $OUT/demo.py >/dev/null 2>&1; echo $?)
+PYT=$(/venv/bin/python /verif/tools/seedtools/intree.py $WT pytest synphot 2>&1 | tail -1)
+DEMO_BAD=$(/venv/bin/python /verif/tools/seedtools/intree.py $WT run $OUT/demo.py >/dev/null 2>&1; echo $?)
 git -C $WT checkout -q -- .
-DEMO_GOOD=$(/venv/bin/python /tmp/seedtools/intree.py $WT run $OUT/demo.py >/dev/null 2>&1; echo $?)
+DEMO_GOOD=$(/venv/bin/python /verif/tools/seedtools/intree.py $WT run $OUT/demo.py >/dev/null 2>&1; echo $?)
 git -C $WT apply $OUT/patch.diff
 echo "pytest on changed tree: $PYT"
 echo "demo on changed tree exit=$DEMO_BAD (want != 0); on clean tree exit=$DEMO_GOOD (want 0)"
